@@ -14,7 +14,7 @@ def one(patch):
     try:
         repo = os.path.join(tmp, "repo")
         subprocess.run(["rsync", "-a", "--exclude", ".git", "/repo/", repo], check=True)
-        r = subprocess.run(["patch", "-p1", "-s", "-d", repo, "-i", patch], capture_output=True, text=True)
+        r = subprocess.run(["patch", "-p1", "-s", "-d", repo, "-i", os.path.abspath(patch)], capture_output=True, text=True)
         if r.returncode != 0:
             res["error"] = "patch does not apply: " + (r.stdout + r.stderr)[-300:]
             return res
